@@ -15,7 +15,7 @@ EXPLANATION = (
     "(2) CLOS: the weak-reference callback stored with the handlers captures neither the sender nor the weak/user arguments strongly, weak arguments are stored only as weakref.ref, "
     "and the handler tuple holds no reference to the sender; (3) EXC/ORDER: disconnect and disconnect_by_key cannot raise (modelled origins), connect rejects an unregistered name with "
     "NameError before the handler is appended; (4) a dead weak argument returns False before the callback is called, and liveness is tested by identity with None, not by truthiness; "
-    "(5) emit visits every handler: the dispatch is a plain loop with no early exit or short-circuit, the result is accumulated and returned."
+    "(5) emit visits every handler: the dispatch is a plain loop with no early exit or short-circuit, the result is accumulated and returned; (6) ALIAS: the handler list registered for (sender, signal) is only edited in place and never replaced - connect() holds an alias to it across the creation of the weak references, whose callbacks may disconnect at that very moment."
 )
 NOT_DECIDED = "Call order and argument order for all histories (list semantics), garbage-collection timing, behaviour for handlers connected/disconnected mid-emit beyond 'handlers that stay connected are called once'."
 ASSUMPTIONS = []
@@ -194,6 +194,64 @@ def rule_emit_total(ctx: Ctx) -> RuleResult:
     return rr
 
 
+def rule_list_identity(ctx: Ctx) -> RuleResult:
+    """connect() fetches the handler list, then creates weak references (whose callbacks may run
+    disconnect_by_key at that very moment), then appends to the list it fetched.  That is only correct
+    if the list object registered for (sender, name) is never replaced: edits must be in place."""
+    from ..rules.defuse import DefUse
+
+    p = ctx.p
+    rr = RuleResult("ALIAS", "C14.6", "the handler list registered for (sender, signal) is only edited in place, never replaced, while connect() holds an alias to it across weak-reference creation", floor=3)
+    cls = p.cls(SIG)
+    conn = p.func(f"{SIG}.connect")
+    # precondition that makes the clause necessary: connect holds an alias across the weakref creation
+    du = DefUse(conn)
+    appends = [c for c in conn.own_nodes() if isinstance(c, ast.Call) and isinstance(c.func, ast.Attribute) and c.func.attr == "append" and isinstance(c.func.value, ast.Name)]
+    if not appends:
+        raise AnalysisError("Signals.connect no longer appends to a local alias of the handler list")
+    alias = appends[0].func.value.id
+    rr.inst("connect holds alias", True, {"alias": alias, "append": norm(appends[0], 70)})
+
+    def is_registry(e, fi, dfu, at) -> bool:
+        x = ast.unparse(dfu.expand(e, at))
+        return "_signal_attr" in x
+
+    for fi in p.all_class_functions(cls):
+        dfu = DefUse(fi)
+        for n in fi.own_nodes():
+            tgts = []
+            if isinstance(n, ast.Assign):
+                tgts = [(t, n) for t in n.targets]
+            elif isinstance(n, ast.AugAssign):
+                tgts = [(n.target, n)]
+            elif isinstance(n, ast.Delete):
+                tgts = [(t, n) for t in n.targets]
+            for t, st in tgts:
+                if not isinstance(t, ast.Subscript) or isinstance(t.slice, ast.Slice):
+                    continue
+                at = dfu.node_of(st)
+                if at is None or not is_registry(t.value, fi, dfu, at):
+                    continue
+                # stores one level below the registry dict (registry[name] = ...) replace a handler list
+                base = ast.unparse(dfu.expand(t.value, at))
+                depth_ok = base.rstrip().endswith(")") or base.endswith("}")  # the dict itself, not dict[name]
+                rr.inst(f"{short(fi)}:{norm(st, 60)}", True, {"function": short(fi), "store": norm(st, 70)})
+                if depth_ok:
+                    rr.add(finding("ALIAS", fi, st, f"`{norm(st, 70)}` replaces the handler list registered for a signal; connect() appends to the list object it fetched before creating the weak references, so a handler connected while a weak argument of another handler dies is appended to an orphaned list and never called", construct=f"handler list replaced: {norm(st, 70)}"))
+            if isinstance(n, ast.Call) and isinstance(n.func, ast.Attribute) and n.func.attr in ("pop", "clear", "update", "popitem") and not isinstance(n.func.value, ast.Name):
+                at = dfu.node_of(n)
+                if at is not None and is_registry(n.func.value, fi, dfu, at) and ast.unparse(dfu.expand(n.func.value, at)).rstrip().endswith(")"):
+                    rr.inst(f"{short(fi)}:{norm(n, 60)}", True)
+                    rr.add(finding("ALIAS", fi, n, f"`{norm(n, 70)}` removes or replaces handler lists of the per-sender registry while connect()/emit() may hold aliases to them", construct=f"registry edited: {norm(n, 70)}"))
+        # in-place edits of the list are the accepted idiom: count them as instances
+        for n in fi.own_nodes():
+            if isinstance(n, ast.Assign) and any(isinstance(t, ast.Subscript) and isinstance(t.slice, ast.Slice) and isinstance(t.value, ast.Name) for t in n.targets):
+                rr.inst(f"{short(fi)}:{norm(n, 60)}", True, {"function": short(fi), "in_place_edit": norm(n, 70)})
+            elif isinstance(n, ast.Call) and isinstance(n.func, ast.Attribute) and n.func.attr in ("append", "remove") and isinstance(n.func.value, ast.Name) and n.func.value.id in ("handlers",):
+                rr.inst(f"{short(fi)}:{norm(n, 60)}", True)
+    return rr
+
+
 def run(ctx: Ctx):
     p = ctx.p
     out = [
@@ -204,6 +262,7 @@ def run(ctx: Ctx):
         rule_connect_disconnect(ctx),
         rule_dead_weak(ctx),
         rule_emit_total(ctx),
+        rule_list_identity(ctx),
     ]
     return out
 
@@ -220,6 +279,7 @@ MUTANTS = [
     Mut("emit-early-return", _F, "Signals.emit", "result |= self._call_callback(callback, user_arg, weak_args, user_args, args)", "if self._call_callback(callback, user_arg, weak_args, user_args, args):\n                return True", "ORDER|"),
     Mut("disconnect-by-key-raises", _F, "Signals.disconnect_by_key", "handlers[:] = [h for h in handlers if h[0] is not key]", "handlers.remove(next(h for h in handlers if h[0] is key))", "EXC|"),
     Mut("connect-append-before-check", _F, "Signals.connect", "raise NameError(f\"No such signal {name!r} for object {obj!r}\")", "pass", ("EXC|", "ORDER|")),
+    Mut("handler-list-replaced", _F, "Signals.disconnect_by_key", "handlers = setdefaultattr(obj, self._signal_attr, {}).get(name, [])\n        handlers[:] = [h for h in handlers if h[0] is not key]", "signals = setdefaultattr(obj, self._signal_attr, {})\n        if name in signals:\n            signals[name] = [h for h in signals[name] if h[0] is not key]", "ALIAS|"),
     Mut("twin-tuple-snapshot", _F, "Signals.emit", "in list(handlers):", "in tuple(handlers):", twin=True),
     Mut("twin-rename-accumulator", _F, "Signals.emit", "result = False", "result = False  # accumulator", twin=True),
     Mut("twin-slice-snapshot", _F, "Signals.emit", "in list(handlers):", "in handlers[:]:", twin=True),
